@@ -211,6 +211,7 @@ class World:
         torch.optim = optim
 
         td_mod = types.ModuleType("tensordict")
+        td_mod.__version__ = "0.14.2"
         td_mod.TensorDict = tdict.TensorDict
         td_mod.TensorDictBase = tdict.TensorDict
         td_tensordict = types.ModuleType("tensordict.tensordict")
